@@ -553,6 +553,10 @@ var caseTrace bool
 // FuncName("conv")) produces). A name identifies nothing.
 var caseShareName bool
 
+// caseOneGen, set the same way: all generated converters of a world come out
+// of one generator function.
+var caseOneGen bool
+
 var traceLogger = hclog.New(&hclog.LoggerOptions{Level: hclog.Trace, Output: io.Discard})
 
 func NewWorld() *World {
@@ -732,7 +736,7 @@ func structType(ls []Label, ptr bool, tag string, r *rand.Rand, caseMix bool) re
 			if caseMix && r != nil {
 				n = mixCase(n, r)
 			}
-			if first, size := utf8.DecodeRuneInString(n); first >= utf8.RuneSelf && unicode.IsLower(first) {
+			if first, size := utf8.DecodeRuneInString(n); first >= utf8.RuneSelf && unicode.IsLower(first) && unicode.ToLower(unicode.ToUpper(first)) == first && strings.ToLower(string(unicode.ToUpper(first))) == string(first) {
 				// a name starting with a non-ASCII letter is spelled with
 				// that letter in upper case on the struct side
 				n = string(unicode.ToUpper(first)) + n[size:]
@@ -1042,6 +1046,7 @@ func Instantiate(s Scenario, r *rand.Rand, targetDefaults ...am.Arg) (*Inst, err
 func InstantiateIn(w *World, s Scenario, r *rand.Rand, targetDefaults ...am.Arg) (*Inst, error) {
 	in := &Inst{W: w, S: s}
 	var gens []am.ConverterGenFunc
+	var genTrigs []int
 	seen := map[reflect.Type]bool{}
 	t, err := w.Build(-1, s.Target, r, targetDefaults...)
 	if err != nil {
@@ -1076,6 +1081,7 @@ func InstantiateIn(w *World, s Scenario, r *rand.Rand, targetDefaults ...am.Arg)
 			f := b.Func
 			trig := types[c.GenTrig]
 			gname := c.GenName
+			genTrigs = append(genTrigs, c.GenTrig)
 			gens = append(gens, func(v am.Value) (*am.Func, error) {
 				if v.Type == trig && (gname == "" || v.Name == gname) {
 					return f, nil
@@ -1084,6 +1090,26 @@ func InstantiateIn(w *World, s Scenario, r *rand.Rand, targetDefaults ...am.Arg)
 			})
 		default:
 			in.ConvArgs = append(in.ConvArgs, am.ConverterFunc(b.Func))
+		}
+	}
+	// one case in seven: ONE generator function manufactures all generated
+	// converters of the case (it looks at the value it is shown and hands out
+	// the converter for that type) -- possible when their trigger types differ
+	if caseOneGen && len(gens) > 1 {
+		distinct := map[int]bool{}
+		for _, t := range genTrigs {
+			distinct[t] = true
+		}
+		if len(distinct) == len(gens) {
+			all := gens
+			gens = []am.ConverterGenFunc{func(v am.Value) (*am.Func, error) {
+				for _, g := range all {
+					if f, err := g(v); f != nil || err != nil {
+						return f, err
+					}
+				}
+				return nil, nil
+			}}
 		}
 	}
 	// several generators travel in ONE ConverterGen(g1, g2, ...) option half
